@@ -11,6 +11,9 @@
 //	B  the exported methods Contains / Equal / Validate / Sort / String on constructed YangRange values.
 //	C  the eight built-in range variables and the decimal64 base ranges.
 //
+// Section long_literals (longlits.go): literals, blank runs and part lists of extreme length (around 2^8 … 2^16
+// characters) with a small value, judged additionally by spec.written (literals read by their written value).
+//
 // The last restriction of chains with a parent is run once more in other placements: union members,
 // the type of a deviate, below an imported typedef whose module is replaced between two runs, and next
 // to every other substatement a type statement can carry (siblings.go).
@@ -1924,6 +1927,8 @@ func main() {
 		// every stride-th chain with a parent is also placed on a union member (0 = never; -1 = every
 		// chain in all four placements)
 		stride int
+		// written: every step is judged once more by spec.written (literals read by their written value)
+		written bool
 	}
 	q := func(quick, thorough int) int {
 		if th {
@@ -1936,16 +1941,26 @@ func main() {
 		nr = 400000
 	}
 	secs := []section{
-		{"union_corpus", genUnionCorpus(), -1},
-		{"same_outer_bounds", genSameBounds(), 2},
-		{"int_api_grid", genIntAPI(th), 0},
-		{"syntax_variants", genSyntax(th), 1},
-		{"int_parent_grid", genIntParents(th), q(8, 16)},
-		{"length_grid", genLengths(th), q(4, 2)},
-		{"decimal_grid", genDecimal(th), q(8, 8)},
-		{"random_chains", genRandom(f.Rand(1), nr), q(1, 2)},
-		{"random_ordered_chains", genRandomOrdered(f.Rand(2), nr), q(1, 2)},
-		{"malformed", genMalformed(f.Rand(3), nr), q(1, 2)},
+		{"union_corpus", genUnionCorpus(), -1, false},
+		{"same_outer_bounds", genSameBounds(), 2, false},
+		{"int_api_grid", genIntAPI(th), 0, false},
+		{"syntax_variants", genSyntax(th), 1, false},
+		{"int_parent_grid", genIntParents(th), q(8, 16), false},
+		{"length_grid", genLengths(th), q(4, 2), false},
+		{"decimal_grid", genDecimal(th), q(8, 8), false},
+		{"random_chains", genRandom(f.Rand(1), nr), q(1, 2), false},
+		{"random_ordered_chains", genRandomOrdered(f.Rand(2), nr), q(1, 2), false},
+		{"malformed", genMalformed(f.Rand(3), nr), q(1, 2), false},
+	}
+	// literals of extreme length (longlits.go); in shares of at most 50000 chains, the requests being long
+	for k, ll := 0, genLongLiterals(th, f.Rand(5)); len(ll) > 0; k++ {
+		n := minInt(len(ll), 50000)
+		name := "long_literals"
+		if k > 0 {
+			name += fmt.Sprintf("_%d", k+1)
+		}
+		secs = append(secs, section{name, ll[:n], q(4, 4), true})
+		ll = ll[n:]
 	}
 	placedCases, placedRejected := map[string]int64{}, map[string]int64{}
 	sibRot, sibStride := 0, 2
@@ -1954,11 +1969,20 @@ func main() {
 	distinct := lib.NewDistinct()
 	var nontriv, evals int64
 	okSteps, errSteps := int64(0), int64(0)
+	writtenSteps, writtenJudged := int64(0), int64(0)
 	depthHist := map[int]int64{}
+	// C10_ONLY=<section name>: development aid, runs that section alone (and no method cases)
+	only := os.Getenv("C10_ONLY")
 	for _, sec := range secs {
+		if only != "" && !strings.HasPrefix(sec.name, only) {
+			continue
+		}
 		t0 := time.Now()
 		cases := sec.cases
 		goOuts := runGo(cases, f.Procs)
+		if only != "" {
+			fmt.Fprintf(os.Stderr, "%s: go %.1fs\n", sec.name, time.Since(t0).Seconds())
+		}
 		reqs := make([]string, len(cases))
 		var specReqs []string
 		specIdx := make([][2]int, len(cases)) // [start, end) in specReqs
@@ -1978,6 +2002,25 @@ func main() {
 		specAns, err := lib.ParBatch(f.Driver, specReqs, f.Procs)
 		if err != nil {
 			lib.Fatal("driver (spec): %v", err)
+		}
+		var writtenAns []string
+		if sec.written {
+			wreqs := make([]string, len(specReqs))
+			for j, r := range specReqs {
+				wreqs[j] = "spec.written" + strings.TrimPrefix(r, "spec.step")
+			}
+			if writtenAns, err = lib.ParBatch(f.Driver, wreqs, f.Procs); err != nil {
+				lib.Fatal("driver (spec.written): %v", err)
+			}
+			for _, a := range writtenAns {
+				if a != "na" {
+					writtenJudged++
+				}
+			}
+			writtenSteps += int64(len(writtenAns))
+		}
+		if only != "" {
+			fmt.Fprintf(os.Stderr, "%s: go + model + spec %.1fs\n", sec.name, time.Since(t0).Seconds())
 		}
 		// disagreements of this section: those the specification condemns first, so that the cap of 50
 		// examined disagreements never hides a violation behind differences in the error class
@@ -2000,6 +2043,10 @@ func main() {
 					verdict, why = "violates", fmt.Sprintf("step %d: %s", j-specIdx[i][0]+1, specAns[j])
 					break
 				}
+				if writtenAns != nil && writtenAns[j] != "holds" && writtenAns[j] != "na" {
+					verdict, why = "violates", fmt.Sprintf("step %d, literals read by their written value: %s", j-specIdx[i][0]+1, writtenAns[j])
+					break
+				}
 			}
 			if strings.Contains(g, "panic") {
 				found = append(found, lib.Disagreement{Kind: "crash", Input: describe(c), Go: g, Model: ans[i], SpecVerdict: "violates",
@@ -2011,10 +2058,10 @@ func main() {
 			}
 			if g != ans[i] {
 				found = append(found, lib.Disagreement{Kind: "correspondence", Input: describe(c), Go: g, Model: ans[i], SpecVerdict: verdict,
-					What: "range restriction: Go differs from the model (" + sec.name + "); spec on the Go outcome: " + verdict + " " + why, Replay: replayIdx(i)})
+					What: clauseOf(verdict, why) + "range restriction: Go differs from the model (" + sec.name + "); spec on the Go outcome: " + verdict + " " + why, Replay: replayIdx(i)})
 			} else if verdict != "holds" {
 				found = append(found, lib.Disagreement{Kind: "spec", Input: describe(c), Go: g, Model: ans[i], SpecVerdict: "violates",
-					What: "range restriction: the outcome violates the specification (" + sec.name + "): " + why, Replay: replayIdx(i)})
+					What: clauseOf(verdict, why) + "range restriction: the outcome violates the specification (" + sec.name + "): " + why, Replay: replayIdx(i)})
 			}
 			if i%(len(cases)/2+1) == 1 {
 				res.AddSample(map[string]any{"section": sec.name, "case": describe(c), "go": g, "model": ans[i]})
@@ -2142,10 +2189,10 @@ func main() {
 					}
 					if uout[j] != models[j] {
 						found = append(found, lib.Disagreement{Kind: "correspondence", Input: in, Go: uout[j], Model: models[j], SpecVerdict: verdict,
-							What: "restriction placed as " + placementText(pc) + ": outcome differs from the model's outcome for the same restriction against the same parent (" + sec.name + "); spec on the Go outcome: " + verdict + " " + why, Replay: pc})
+							What: clauseOf(verdict, why) + "restriction placed as " + placementText(pc) + ": outcome differs from the model's outcome for the same restriction against the same parent (" + sec.name + "); spec on the Go outcome: " + verdict + " " + why, Replay: pc})
 					} else if verdict != "holds" {
 						found = append(found, lib.Disagreement{Kind: "spec", Input: in, Go: uout[j], Model: models[j], SpecVerdict: "violates",
-							What: "restriction placed as " + placementText(pc) + ": the outcome violates the specification (" + sec.name + "): " + why, Replay: pc})
+							What: clauseOf("violates", why) + "restriction placed as " + placementText(pc) + ": the outcome violates the specification (" + sec.name + "): " + why, Replay: pc})
 					}
 					if distinct.Add(pc.placement() + " " + pc.key()) {
 						nontriv++
@@ -2204,6 +2251,9 @@ func main() {
 	// family B
 	tB := time.Now()
 	mcs := genMethods(th, f.Rand(4))
+	if only != "" {
+		mcs = nil
+	}
 	mreqs := make([]string, len(mcs))
 	mgo := make([]string, len(mcs))
 	var sreqs []string
@@ -2267,6 +2317,8 @@ func main() {
 	res.Distribution["contains_pairs_checked_against_spec"] = sdcPairs
 	res.Distribution["steps_accepted"] = okSteps
 	res.Distribution["steps_rejected"] = errSteps
+	res.Distribution["long_literal_steps"] = writtenSteps
+	res.Distribution["long_literal_steps_judged_by_written_value"] = writtenJudged
 	for k, n := range placedCases {
 		res.Distribution[k+"_placements"] = n
 		res.Distribution[k+"_placements_rejected"] = placedRejected[k]
@@ -2285,8 +2337,26 @@ func main() {
 	res.Evaluations = evals
 	res.DistinctNontrivial = nontriv
 	res.Exhaustive = true
-	res.Rule = "restriction chains = (mode int|dec|len, base type or none, fraction-digits, list of restriction texts); exhaustive grids: all texts of 1 part (and of 2 and 3 parts over smaller sets) with bounds from {min, max, 0, -0, +-1, every integer type's limits and limits+-1, 2^63-1, 2^63, 2^64-1, 2^64} called directly and under each of the 8 integer types x 8 (thorough 12) earlier restrictions of it through YANG typedef chains; the same for lengths and for decimal64 at fraction-digits 1, 2, 17, 18 (thorough: 1..18); groups of chains that differ only in the interior of the parent (same outer bounds, same child text) resolved inside one module; literal-syntax tokens (white space incl. Unicode, base-0 literals, underscores, signs, keywords, 1..6 dots, empty parts) in all pairs; seeded random chains of depth 1..4, ordered random chains, random texts over the grammar's alphabet; every stride-th chain with a parent (all of the syntax tokens and random chains) is run once more with its last restriction placed on a member of a union whose earlier member is the unrestricted parent type (built-in or typedef; 2nd member, 3rd member, union inside a typedef, further member after it): error and range must be those of the plain placement; the same chains with the last restriction in the type of a deviate replace/add on a leaf or leaf-list of another module; chains of two or more steps with the earlier steps in an imported module that is replaced by a newer revision (with / without the restrictions) between two Process runs on the same Modules, the last restriction on a union member inside a typedef of the importing module: after the second run the outcome must be the one for the new parent; sibling placements (siblings.go): the last restriction next to every other substatement a type statement can carry, before it and after it (pattern valid / invalid regexp / with modifier and messages / twice, openconfig-extensions:posix-pattern valid / invalid / twice / with a body / together with pattern, extensions of another module, of the own module, other extensions of openconfig-extensions, nested, without argument, with an unbound prefix, fraction-digits on a non-decimal type / repeated on a decimal typedef / written after the range, the other restriction kind admissible and inadmissible (length beside range, range beside length), enum, duplicate enum, bit, base known / unknown, path, require-instance valid / invalid, a member type), with substatements of its own (error-message, error-app-tag, description, reference, extensions, empty body), and its type statement next to units / default / description / reference / status / extensions of the enclosing typedef and units / default / mandatory / config / must / when / extensions of the enclosing leaf; each of these in a leaf, a typedef used by a leaf, a union member of a leaf, a union member inside a typedef, the type of a deviate replace, a leaf of a used grouping and a leaf-list inside a list: all combinations for the corpus chains, one combination (walking through the list) for every 2nd selected chain of the other sections, every case in a Modules value of its own; the outcome (error of the restriction's kind at the restriction's line, else the set read from the entry) must be the model's outcome for the same restriction against the same parent and satisfy the specification; next to a sibling that is in error itself (invalid regexp, duplicate enum, unknown base, fraction-digits on a non-decimal type, an inadmissible restriction of the other kind, require-instance that is not a boolean, a default that is not a number) an inadmissible restriction counts as rejected when any error is reported; next to a sibling that stops the resolution of the type statement (unbound extension prefix, repeated fraction-digits) an inadmissible restriction must still not pass without any error; exported methods Contains/Equal/Validate/Sort/String on all lists of <= 2 parts over {0..4} (Contains: all pairs), over a signed universe with -0, over the 64-bit extremes at fd 0, 1, 18, all lists of 3 parts over {0..3}, random lists. Every Go outcome is compared with the model and judged by the executable specification. distinct_nontrivial = distinct inputs that have more than one part, a min/max keyword or more than one step (chains), or a list of more than one part (methods)"
+	res.Rule = "restriction chains = (mode int|dec|len, base type or none, fraction-digits, list of restriction texts); exhaustive grids: all texts of 1 part (and of 2 and 3 parts over smaller sets) with bounds from {min, max, 0, -0, +-1, every integer type's limits and limits+-1, 2^63-1, 2^63, 2^64-1, 2^64} called directly and under each of the 8 integer types x 8 (thorough 12) earlier restrictions of it through YANG typedef chains; the same for lengths and for decimal64 at fraction-digits 1, 2, 17, 18 (thorough: 1..18); groups of chains that differ only in the interior of the parent (same outer bounds, same child text) resolved inside one module; literal-syntax tokens (white space incl. Unicode, base-0 literals, underscores, signs, keywords, 1..6 dots, empty parts) in all pairs; seeded random chains of depth 1..4, ordered random chains, random texts over the grammar's alphabet; every stride-th chain with a parent (all of the syntax tokens and random chains) is run once more with its last restriction placed on a member of a union whose earlier member is the unrestricted parent type (built-in or typedef; 2nd member, 3rd member, union inside a typedef, further member after it): error and range must be those of the plain placement; the same chains with the last restriction in the type of a deviate replace/add on a leaf or leaf-list of another module; chains of two or more steps with the earlier steps in an imported module that is replaced by a newer revision (with / without the restrictions) between two Process runs on the same Modules, the last restriction on a union member inside a typedef of the importing module: after the second run the outcome must be the one for the new parent; sibling placements (siblings.go): the last restriction next to every other substatement a type statement can carry, before it and after it (pattern valid / invalid regexp / with modifier and messages / twice, openconfig-extensions:posix-pattern valid / invalid / twice / with a body / together with pattern, extensions of another module, of the own module, other extensions of openconfig-extensions, nested, without argument, with an unbound prefix, fraction-digits on a non-decimal type / repeated on a decimal typedef / written after the range, the other restriction kind admissible and inadmissible (length beside range, range beside length), enum, duplicate enum, bit, base known / unknown, path, require-instance valid / invalid, a member type), with substatements of its own (error-message, error-app-tag, description, reference, extensions, empty body), and its type statement next to units / default / description / reference / status / extensions of the enclosing typedef and units / default / mandatory / config / must / when / extensions of the enclosing leaf; each of these in a leaf, a typedef used by a leaf, a union member of a leaf, a union member inside a typedef, the type of a deviate replace, a leaf of a used grouping and a leaf-list inside a list: all combinations for the corpus chains, one combination (walking through the list) for every 2nd selected chain of the other sections, every case in a Modules value of its own; the outcome (error of the restriction's kind at the restriction's line, else the set read from the entry) must be the model's outcome for the same restriction against the same parent and satisfy the specification; next to a sibling that is in error itself (invalid regexp, duplicate enum, unknown base, fraction-digits on a non-decimal type, an inadmissible restriction of the other kind, require-instance that is not a boolean, a default that is not a number) an inadmissible restriction counts as rejected when any error is reported; next to a sibling that stops the resolution of the type statement (unbound extension prefix, repeated fraction-digits) an inadmissible restriction must still not pass without any error; literals of extreme length and small value (longlits.go): decimal bounds with 19 to 1025 (and 65535 to 65554; thorough also 2^12, 2^15, 2^17) fraction digits that are zeros but for the last one(s), zero fractions, trailing zeros, fractions of nines, integer parts with that many leading zeros (alone, with a fraction inside / one digit beyond the scale), integer and length bounds with that many leading zeros (octal in Go's base-0 syntax: 0...07, 0...08, 0...0377, 0...0400, 2^64-1 and 2^64, 2^63), after 0x / 0b / 0o, with underscores, 1 followed by that many zeros, with signs; each as single value, upper bound after 0 / 1 / min, lower bound before max, between -x and x, beside a second part; called directly and under decimal64 at fraction-digits 1, 2, 9, 18 (core shapes thorough: 1..18) / uint8, int8, uint64, int64 / string lengths and under restricted parents of them; runs of that many blanks, tabs, line feeds, dots, bars, signs; restrictions of 13, 255, 256, 257, 513 parts (apart, touching, descending, identical, overlapping, one outside the parent, one in a gap); seeded random long literals (lengths next to multiples of 256 and 65536, up to three non-zero digits); the Go outcome of each of these is judged by spec.step and once more by spec.written, in which every plain literal is read by its written value in exact arithmetic by a reader that shares nothing with the model's digit loops (Drv/Range.lean, namespace Written); exported methods Contains/Equal/Validate/Sort/String on all lists of <= 2 parts over {0..4} (Contains: all pairs), over a signed universe with -0, over the 64-bit extremes at fd 0, 1, 18, all lists of 3 parts over {0..3}, random lists. Every Go outcome is compared with the model and judged by the executable specification. distinct_nontrivial = distinct inputs that have more than one part, a min/max keyword or more than one step (chains), or a list of more than one part (methods)"
 	res.Write(f.Out)
+}
+
+// clauseOf: the clause of the property a condemned outcome breaks (from the verdict of spec.step / spec.written).
+func clauseOf(verdict, why string) string {
+	if verdict != "violates" {
+		return ""
+	}
+	switch {
+	case strings.Contains(why, "accepted although"):
+		return "a restriction that is syntactically invalid, has a part out of order or admits a value its parent does not must be rejected with an error: "
+	case strings.Contains(why, "does not denote the written set"):
+		return "the resolved set must equal the set written in the statement: "
+	case strings.Contains(why, "not sorted, disjoint and coalesced"):
+		return "the resolved set must be presented sorted, disjoint and coalesced: "
+	case strings.Contains(why, "rejected although"):
+		return "only inadmissible restrictions are rejected (a well-formed, ordered restriction inside the parent's set is accepted): "
+	}
+	return ""
 }
 
 func placementText(u UCase) string {
@@ -2308,10 +2378,17 @@ func maxInt(a, b int) int {
 
 func describe(c Case) map[string]any {
 	st := make([]string, len(c.Steps))
+	long := false
 	for i, h := range c.Steps {
-		st[i] = text(h)
+		t := text(h)
+		st[i] = compactText(t)
+		long = long || st[i] != t
 	}
-	return map[string]any{"mode": c.Mode, "base": c.Base, "fraction_digits": c.Fd, "restrictions": st}
+	d := map[string]any{"mode": c.Mode, "base": c.Base, "fraction_digits": c.Fd, "restrictions": st}
+	if long {
+		d["notation"] = "c{n} stands for n times the character c (the replay record has the text itself)"
+	}
+	return d
 }
 
 func replay(f *lib.Flags, d *lib.Driver) {
@@ -2454,6 +2531,11 @@ func replay(f *lib.Flags, d *lib.Driver) {
 		s, _ := d.Ask(r)
 		why = append(why, s)
 		if s != "holds" {
+			verdict = "violates"
+		}
+		// literals read by their written value (na: a boundary that is not a plain literal)
+		if w, _ := d.Ask("spec.written" + strings.TrimPrefix(r, "spec.step")); w != "holds" && w != "na" {
+			why = append(why, "by written value: "+w)
 			verdict = "violates"
 		}
 	}
